@@ -27,6 +27,12 @@ def conv(rng, i):
         size = rng.choice([3, 100, 1024, 1025, 3000]) if fr != "none" else 0
         r = AReq(method=rng.choice(["GET", "POST", "PUT"]), target="/v" + tag, version="1.1", headers=[("Host", "h")], framing=fr,
                  body=body_bytes(tag, size), chunks=random_chunks(rng, size) if fr == "chunked" else None)
+        if k == n - 1 and rng.chance(1, 3):
+            # the request that ends the connection: same demands (a small body cut short is NOT delivered)
+            if rng.chance(1, 2):
+                r.conn = rng.choice(["close", "Close"])
+            else:
+                r.version = "1.0"
         reqs.append(r)
     return reqs
 
